@@ -3,6 +3,7 @@
 open Vx
 open C13Model
 open C13ModelExt
+open C13ModelTail
 
 let parse_wop (s : string) : wop =
   match split_on ':' s with
@@ -41,6 +42,12 @@ let parse_fop (s : string) : fop =
   | ["y"; h] -> FBytes (bytes_of_hex h)
   | ["m"] -> FMatrix
   | _ -> failwith ("bad fop " ^ s)
+
+(* the same plus WriteString ("s:<hex of the string's bytes>:<1 = zero terminator>"), C13ModelTail.fop2 *)
+let parse_fop2 (s : string) : fop2 =
+  match split_on ':' s with
+  | ["s"; h; z] -> FStr (bytes_of_hex h, z = "1")
+  | _ -> F1 (parse_fop s)
 
 let parse_bop (s : string) : bop =
   match split_on ':' s with
@@ -99,6 +106,10 @@ let () =
         let step s (os : string) : string * rstate =
           match split_on ':' os with
           | ["S"] -> let (z, s') = read_se64 s in (hex_of_z z, s')
+          | ["r"] when not esc -> (* Reader.ReadRemainingBytes: N = nil, h<hex> = the slice *)
+            (match read_remaining s with
+             | (None, s') -> ("N", s')
+             | (Some l, s') -> ("h" ^ hex_of_bytes l, s'))
           | ["g"; k] ->
             (match read_signed64 s (n_of_int (int_of_string k)) with
              | None -> ("P", s)
@@ -144,10 +155,10 @@ let () =
         if mo = outhex && mt = trace then Printf.printf "OK %s\n" id
         else Printf.printf "MISMATCH %s failing-writer(%s) model_out=%s model_trace=%s\n" id mode mo mt
       | ["F"; id; cap; ops; outhex; trace] ->
-        let ops = parse_list parse_fop ops in
+        let ops = parse_list parse_fop2 ops in
         let (s, tr) =
           L.fold_left (fun (s, tr) o ->
-              let s' = fstep s o in
+              let s' = fstep2 s o in
               (s', Printf.sprintf "%d/%d" (int_of_n (foff s')) (if ferr s' then 1 else 0) :: tr))
             (finit (n_of_int (int_of_string cap)), []) ops in
         let mo = hex_of_bytes (fbytes s) in
